@@ -80,8 +80,9 @@ type Step struct {
 
 // ACLSpec is the access-control table.
 type ACLSpec struct {
-	Allow    [][]bool `json:"allow"`     // [user][target]
-	FailUser []bool   `json:"fail_user"` // NewRPCACL fails for this user
+	Allow    [][]bool `json:"allow"`               // [user][target]
+	FailUser []bool   `json:"fail_user"`           // NewRPCACL fails for this user
+	FailKind []string `json:"fail_kind,omitempty"` // ... with this kind of error value (see aclError)
 }
 
 // Scenario is the whole case.
@@ -448,6 +449,7 @@ func genScenario(prop string) func(t *rapid.T) *Scenario {
 				}
 				acl.Allow = append(acl.Allow, row)
 				acl.FailUser = append(acl.FailUser, rapid.IntRange(0, 7).Draw(t, "failuser") == 0)
+				acl.FailKind = append(acl.FailKind, rapid.SampledFrom([]string{"", "", "status-unavailable", "status-denied", "wrapped-status", "status-ok", "canceled", "empty-text"}).Draw(t, "failkind"))
 			}
 			sc.ACL = acl
 		}
